@@ -414,7 +414,8 @@ def main():
             if mism[name]:
                 r.violation({"kind": "correspondence-broken", "function": name,
                              "theorem": "correspondence of pydap with the Gallina model underlying props/C12.v (%s)" % name,
-                             "case": mism[name][0][:3000], "n_mismatches": len(mism[name])}, found=False)
+                             "case": mism[name][0][:3000], "n_mismatches": len(mism[name]),
+                             "all_cases": [c[:60000] for c in mism[name][:6]]}, found=False)
     r.assumptions = [
         "names are modelled as UTF-8 byte strings; for names starting with 'dap4' the first 8 characters are ASCII in the correspondence",
         "tree model is value-level: data and attribute values are opaque tokens (object identity of the numpy array)",
